@@ -65,13 +65,26 @@ func extractGoSites() {
 			ast.Inspect(fd.Body, func(n ast.Node) bool {
 				switch x := n.(type) {
 				case *ast.GoStmt:
-					goSites = append(goSites, fmt.Sprintf("%s|%s|%s", rel, fname, oneLine(exprText(fset, x.Call.Fun))))
+					// what is started, without the name of the variable it is called on: `t.run` and `tok.run` are the same fact
+					callee := oneLine(exprText(fset, x.Call.Fun))
+					if sel, ok := x.Call.Fun.(*ast.SelectorExpr); ok {
+						if _, plain := sel.X.(*ast.Ident); plain {
+							callee = "." + sel.Sel.Name
+						}
+					}
+					goSites = append(goSites, fmt.Sprintf("%s|%s|%s", rel, fname, callee))
 				case *ast.CallExpr:
 					if sel, ok := x.Fun.(*ast.SelectorExpr); ok && sel.Sel.Name == "Start" && strings.Contains(exprText(fset, sel.X), "NewTokenizer(") {
 						startSites = append(startSites, rel+"|"+fname)
 					}
 					if id, ok := x.Fun.(*ast.Ident); ok && id.Name == "close" && len(x.Args) == 1 {
-						closeSites = append(closeSites, fmt.Sprintf("%s|%s|%s", rel, fname, exprText(fset, x.Args[0])))
+						arg := exprText(fset, x.Args[0])
+						if sel, ok := x.Args[0].(*ast.SelectorExpr); ok { // the channel FIELD, not the name of the variable
+							arg = "." + sel.Sel.Name
+						} else if _, ok := x.Args[0].(*ast.Ident); ok {
+							arg = "<chan>"
+						}
+						closeSites = append(closeSites, fmt.Sprintf("%s|%s|%s", rel, fname, arg))
 					}
 				}
 				return true
@@ -89,7 +102,17 @@ func extractGoSites() {
 						if id, ok := x.Fun.(*ast.Ident); ok && id.Name == "run" && runPos == 0 {
 							runPos = x.Pos()
 							if len(x.Args) == 1 {
+								// the shape of the argument: which wrapper around which method of which kind of value, not the variable names
 								multiUseRunArg = oneLine(exprText(fset, x.Args[0]))
+								if call, ok := x.Args[0].(*ast.CallExpr); ok && len(call.Args) == 1 {
+									inner := "?"
+									if ic, ok := call.Args[0].(*ast.CallExpr); ok {
+										if sel, ok := ic.Fun.(*ast.SelectorExpr); ok {
+											inner = "<list>." + sel.Sel.Name + "(…)"
+										}
+									}
+									multiUseRunArg = oneLine(exprText(fset, call.Fun)) + "(" + inner + ")"
+								}
 							}
 						}
 					}
